@@ -4,7 +4,7 @@ patch of seeded/*/patch.diff) to a scratch copy of /repo, run the repository's
 fast tests there, then the expected checks (quick tier) with SELFIES_REPO
 pointing at the copy.  Nothing is ever written to /repo.
 
-usage: run_mutants.py [--all-checks] [--seeded] [name-prefix ...]"""
+usage: run_mutants.py [--all-checks] [--checks=C01,C02] [--seeded] [name-prefix ...]"""
 import json
 import os
 import re
@@ -62,6 +62,7 @@ def main():
     allchecks = "--all-checks" in args
     seeded = "--seeded" in args
     only = [a for a in args if not a.startswith("--")]
+    override = [a.split("=", 1)[1].split(",") for a in args if a.startswith("--checks=")]
     os.makedirs(SCR, exist_ok=True)
     jobs = []
     if seeded:
@@ -106,7 +107,7 @@ def main():
             shutil.rmtree(d, ignore_errors=True)
             continue
         st = suite(d)
-        res = checks(d, ALL if allchecks else (props or ALL))
+        res = checks(d, override[0] if override else (ALL if allchecks else (props or ALL)))
         fired = [p for p, (rc, _, _) in res.items() if rc == 1]
         incon = [p for p, (rc, _, _) in res.items() if rc not in (0, 1)]
         verdict = "CAUGHT" if fired else ("INCONCLUSIVE" if incon else "MISSED")
